@@ -237,7 +237,7 @@ def run(ctx: core.Ctx) -> core.Report:
     for k in ("states", "transitions", "nontrivial_transitions"):
         tot[k] += pres[k]
     tot["violations"] += pres["violations"]
-    sres = bfs.search_many(ctx, MOD, [{"version": v, "small": True, "eol": eol} for v in R.VERSIONS for eol in ("", "\n", "\r\n")], max_depth=8 if ctx.quick else 12)
+    sres = bfs.search_many(ctx, MOD, [{"version": v, "small": True, "eol": eol} for v in R.VERSIONS for eol in ("", "\n", "\r\n") if not ctx.quick or eol == "" or v in ("1.4", "2.1")], max_depth=7 if ctx.quick else 12)
     for k in ("states", "transitions", "nontrivial_transitions"):
         tot[k] += sres[k]
     tot["per_cfg"] += sres["per_cfg"]
